@@ -144,9 +144,10 @@ def autocov(ctx, ackey, bodies):
         s_ = S(param)
         found = canon_nd(evw.ret_term, {s_: 3})
         p = index_term(T.app('shape', s_), N(2))
-        k, w, v = wv_forms(s_, lambda h: (h,))[0]
-        ctx.eq('C12.lag0', 'within/var+ ~ autocovariance', 'normaliser', found, T.tup(mk_comp(p, k, w), mk_comp(p, k, v)), sp=wvb['sp'],
-               why='rho_0 = 1 requires the lag-0 autocovariance (normalised by 1/h in both paths) to equal the per-chain variance used in W: W must use the divisor h as well')
+        exps = [T.tup(mk_comp(p, k, w), mk_comp(p, k, v)) for k, w, v in wv_forms(s_, lambda h: (h, T.sub(h, T.ONE)))]
+        ctx.eq('C12.lag0', 'within/var+ ~ autocovariance', 'normaliser', found, exps[0], alts=exps[1:], sp=wvb['sp'],
+               why='the W of rho_t = 1 - (W - acov_t)/var+ is the mean CENTRED within-chain variance (divisor h, matching the 1/h lag-0 autocovariance exactly, or h-1 as in Stan): '
+                   'a variance computed another way (e.g. E[x^2]-E[x]^2) no longer agrees with the lag-0 autocovariance and shifts every rho_t')
 
 
 def bf(ctx, b):
